@@ -316,7 +316,7 @@ pub fn run(ctx: &Ctx, rep: &mut Report) {
                 oov_cfg.push(json!({"class": format!("{}MeCabOovPlugin", CLS), "charDef": "char.def", "unkDef": "unk.def"}));
             }
             if o == 1 && rng.chance(1, 2) {
-                let re = rng.s(&["[a-zZ]+[0-9]*", "[0-9ab]+", "[アイー]{2,}", "(漢|字|々)+", ".{70}", "a?"]).to_string();
+                let re = rng.s(&["[a-zZ]+[0-9]*", "[0-9ab]+", "[アイー]{2,}", "(漢|字|々)+", ".{70}", "a?", "a{64}", "[あい]{64}", "1{65}", ".{64}"]).to_string();
                 let relaxed = rng.chance(1, 2);
                 let max_len = *rng.pick(&[2usize, 3, 32, 100]);
                 let (l, r, c) = (rng.range(0, nid - 1) as i16, rng.range(0, nid - 1) as i16, rng.range(500, 9000) as i16);
@@ -366,7 +366,8 @@ pub fn run(ctx: &Ctx, rep: &mut Report) {
             let mut text = String::new();
             for _ in 0..1 + rng.below(12) {
                 let c = *rng.pick(ALPHABET);
-                let rep_n = if rng.chance(1, 40) { 65 + rng.below(10) } else { 1 + rng.below(3) };
+                let long_regex = providers.iter().any(|p| matches!(p, Provider::Regex { max_len, .. } if *max_len >= 64));
+                let rep_n = if rng.chance(1, if long_regex { 6 } else { 40 }) { 65 + rng.below(14) } else { 1 + rng.below(3) };
                 for _ in 0..rep_n {
                     text.push(c);
                 }
